@@ -83,11 +83,11 @@ func runFaultRounds(p *eng.Program, faults []eng.Fault, scratch string, idx int)
 	r := eng.NewRunner(p, c06Oracles, dir)
 	r.E.FS = fs
 	r.StopFaultsAtReopen = true
-	r.E.D.OnCross = func(point string) {
+	r.E.D.SetOnCross(func(point string) {
 		if len(point) > 6 && point[:6] == "store." {
 			fs.SetPhase(point)
 		}
-	}
+	})
 	var rounds []roundOps
 	last := map[string]int{}
 	r.OnRound = func(k int, kind string) {
